@@ -888,6 +888,93 @@ def fun_name(fun):
     return {'sqrtm': 'PSDMatrixSqrtm', 'repeat': '_PSDMatrixSqrtmRepeat', 'logm': 'PSDMatrixLogm'}[fun[0]]
 
 
+def run_psd_frame(case, out, env):
+    """gradient of X -> Re tr(K^dagger f(X X^dagger)) through the library's custom backward, for rank-deficient X X^dagger"""
+    import numqi
+    import torch
+    d, field, fun = case['d'], case['field'], tuple(case['fun'])
+    fn = impl_psd_fun(numqi, fun)
+    site = '_torch_op/' + fun_name(fun) + '/frame'
+    s_rep = 1 if fun[0] == 'sqrtm' else fun[1]
+    p = 2.0 ** (-s_rep) - 1.0
+    rng = env.rng('C04', 'psd_frame', d, field)
+    cplx = field == 'c'
+
+    def gen(*shape):
+        x = rng.normal(size=shape)
+        return x + 1j * rng.normal(size=shape) if cplx else x
+
+    def closed(X):
+        G = X.conj().T @ X
+        w, v = np.linalg.eigh(G)
+        return X @ ((v * w ** p) @ v.conj().T) @ X.conj().T
+    K = gen(d, d)
+    for r in range(1, d):
+        frames = [('generic', gen(d, r)), ('identity_block', np.eye(d, r).astype(np.complex128 if cplx else np.float64))]
+        z = gen(d, r)
+        z[-1] = 0
+        frames.append(('zero_last_row', z))
+        z2 = gen(d, r)
+        z2[0] = 0
+        frames.append(('zero_first_row', z2))
+        for name, X0 in frames:
+            out.state()
+            det = dict(function=fun_name(fun), args=list(fun[1:]), d=d, r=r, field=field, frame=name, X=X0)
+            Xt = torch.tensor(X0, requires_grad=True)
+            try:
+                A = Xt @ Xt.conj().T
+                val = fn(A)
+                loss = torch.real(torch.sum(torch.tensor(K).conj() * val))
+                g, = torch.autograd.grad(loss, Xt)
+                out.trans()
+            except Exception as e:
+                out.violation('%s/%s' % (site, type(e).__name__), '%s raised %s on A = X X^dagger (d=%d, r=%d, %s): %s' % (fun_name(fun), type(e).__name__, d, r, name, str(e)[:150]), **det)
+                continue
+            vnp = val.detach().numpy()
+            vref = closed(X0)
+            # forward: the null eigenvalues of A are O(eps) noise (clamped at 0), and lambda -> lambda^(1/2^s) is Hoelder continuous with
+            # exponent 1/2^s only: tolerance 1e3 * eps^(1/2^s)
+            tol_f = 1e3 * EPS ** (2.0 ** (-s_rep)) * max(1.0, np.abs(vref).max())
+            if not np.all(np.isfinite(vnp)) or np.abs(vnp - vref).max() > tol_f:
+                out.violation(site + '/forward_mismatch', '%s(X X^dagger) differs from X (X^dagger X)^p X^dagger by %.3g (d=%d, r=%d, %s)' % (fun_name(fun), np.abs(vnp - vref).max(), d, r, name), **det)
+                continue
+            gi = g.detach().numpy()
+            if not np.all(np.isfinite(gi)):
+                out.violation(site + '/gradient_not_finite', 'gradient w.r.t. X is not finite (d=%d, r=%d, %s)' % (d, r, name), **det)
+                continue
+
+            def L(X):
+                return float(np.real(np.sum(K.conj() * closed(X))))
+            # reference: central differences of the closed form, h = 1e-6 (truncation ~1e-12, rounding ~1e-10)
+            h = 1e-6
+            gref = np.zeros(X0.shape, dtype=np.complex128)
+            for i in range(d):
+                for j in range(r):
+                    E = np.zeros_like(X0)
+                    E[i, j] = 1
+                    gr = (L(X0 + h * E) - L(X0 - h * E)) / (2 * h)
+                    gim = (L(X0 + 1j * h * E) - L(X0 - 1j * h * E)) / (2 * h) if cplx else 0.0
+                    gref[i, j] = gr + 1j * gim
+            # torch convention for complex leaves: grad = dL/dRe + i dL/dIm
+            gcmp = gi if cplx else gi.real
+            gr_ = gref if cplx else gref.real
+            scale = max(1.0, np.abs(gref).max())
+            if s_rep >= 2:
+                # A^(1/2^s), s >= 2: the O(eps) noise in the null eigenvalues enters the range/null cross terms as eps^(1/2^s) (1e-4 for s=2,
+                # 1e-2 for s=3) - the derivative itself is too ill-conditioned to be compared; finiteness and the forward value are checked
+                out.count('skipped_ill_conditioned[repeat>=2 frame gradient value]')
+                out.trace()
+                continue
+            # s = 1: cross terms G_ij/(s_i+s_j) with s_i = sqrt(O(eps)) noise: relative error sqrt(eps)=1.5e-8 -> c*sqrt(eps) = 1.5e-5; finite
+            # differences add 1e-9. Tolerance 1e-4 (a dropped cross term is O(1)).
+            if np.abs(gcmp - gr_).max() > 1e-4 * scale:
+                out.violation(site + '/wrong_gradient', 'gradient of X -> Re tr(K^dagger %s(X X^dagger)) differs from central differences of the closed form by %.3g (scale %.3g; d=%d, r=%d, frame %s)'
+                              % (fun_name(fun), np.abs(gcmp - gr_).max(), scale, d, r, name), **det)
+            out.trace()
+            out.outcome((fun, d, r, field, name, np.round(gref, 5)), nontrivial=bool(np.abs(gref).max() > 1e-6))
+    out.sample = {'kind': 'psd_frame', 'function': fun_name(fun), 'd': d, 'field': field}
+
+
 def run_psd(case, out, env):
     import numqi
     import torch
@@ -1506,6 +1593,13 @@ def build_cases(tier, seed):
         for d in (2, 3, 4):
             for field in ('c', 'r'):
                 cases.append({'kind': 'psd', 'fun': list(fun), 'd': d, 'field': field, 'batches': psd_batches(d, tier)})
+    # rank-deficient PSD inputs reached through a frame: A = X X^dagger with X of shape (d, r), r < d. The composite X -> f(X X^dagger)
+    # is differentiable (f(A) = X (X^dagger X)^p X^dagger) although f itself is not differentiable at the zero eigenvalues.
+    for fun in [('sqrtm',), ('repeat', 1), ('repeat', 2), ('repeat', 3)]:
+        for d in (2, 3, 4):
+            for field in ('c', 'r'):
+                cases.append({'kind': 'psd_frame', 'fun': list(fun), 'd': d, 'field': field})
+    info['psd_frame'] = 'A = X X^dagger, X in {generic, [1_r;0], generic with an exactly zero row} for every d in 2..4, r in 1..d-1; gradient w.r.t. X against central differences of the closed form'
     info['kl'] = []
     for n in (2, 3):
         ns = len(kl_sequences(n))
@@ -1540,4 +1634,4 @@ def build_cases(tier, seed):
 
 def run_case(case, out, env):
     kind = case['kind']
-    {'prog': run_prog, 'psd': run_psd, 'kl': run_kl, 'bridge': run_bridge, 'entropy': run_entropy, 'model': run_model}[kind](case, out, env)
+    {'prog': run_prog, 'psd': run_psd, 'psd_frame': run_psd_frame, 'kl': run_kl, 'bridge': run_bridge, 'entropy': run_entropy, 'model': run_model}[kind](case, out, env)
